@@ -624,21 +624,8 @@ struct Runner {
   }
 
   std::string key(const std::string& kind) const { return std::string("C10:") + fl.family + ":" + kind; }
-  // Keys of loop-level oracles. Case classes in which a (sequential) removeEdge defect can apply — parallel edges on
-  // a graph with reverse entries, self-loops — get one collapsed key per class: while such a defect is open the
-  // individual oracles cannot be told apart there. All other classes keep one key per oracle.
-  std::string cls() const {
-    std::string s;
-    if (spec.multiEdges && tracksReverse(FL))
-      s += ":multi-edge";
-    if (spec.selfLoops)
-      s += ":self-loop";
-    return s;
-  }
-  std::string loopKey(const std::string& kind) const {
-    std::string c = cls();
-    return c.empty() ? key(kind) : key("loop-check-failed") + c;
-  }
+  // keys of loop-level oracles: one per oracle
+  std::string loopKey(const std::string& kind) const { return key(kind); }
 
   galois::runtime::Lockable* lockFor(uint32_t lid) {
     if (kNoLock)
